@@ -204,7 +204,11 @@ func (e *Engine) eqVal(a, b Value) *Term {
 	case PtrV:
 		switch y := b.(type) {
 		case PtrV:
-			return c.Bool(x.Obj == y.Obj && pathEq(x.Path, y.Path))
+			nx, ny := e.ptrNilTerm(x), e.ptrNilTerm(y)
+			if x.Obj == y.Obj && pathEq(x.Path, y.Path) {
+				return c.Eq(nx, ny)
+			}
+			return c.And(nx, ny)
 		case LocV:
 			return c.Bool(x.IsNil() && y.Kind == 0)
 		case RegexpV:
@@ -282,8 +286,8 @@ func (e *Engine) eqVal(a, b Value) *Term {
 		return c.False
 	case TimeV:
 		y := b.(TimeV)
-		if x.Loc != y.Loc {
-			panic(unsupported("== on time.Time values in different locations"))
+		if x.UTC != y.UTC {
+			panic(unsupported("== on time.Time values in possibly different locations"))
 		}
 		return c.And(c.Eq(x.Y, y.Y), c.Eq(x.M, y.M), c.Eq(x.D, y.D), c.Eq(x.H, y.H), c.Eq(x.Mi, y.Mi), c.Eq(x.S, y.S), c.Eq(x.Ns, y.Ns))
 	case FloatV:
@@ -303,8 +307,8 @@ func (e *Engine) unop(st *State, fr *Frame, x *ssa.UnOp, exits *[]exit) (Value, 
 	case token.MUL: // load
 		switch p := v.(type) {
 		case PtrV:
-			if p.IsNil() {
-				e.panicExit(st, fr, "nil pointer dereference", x.Pos(), exits)
+			p, ok := e.needNonNil(st, fr, p, x.Pos(), exits)
+			if !ok {
 				return nil, false
 			}
 			return e.load(st, p), true
@@ -457,8 +461,8 @@ func (e *Engine) indexAddr(st *State, fr *Frame, xv Value, idx *Term, it types.T
 		}
 		return PtrV{Obj: x.Obj, Path: appendPath(x.Path, PathElem{S: c.BVAdd(idx, c.BV(uint64(x.Off), 64))})}, true
 	case PtrV: // *array
-		if x.IsNil() {
-			e.panicExit(st, fr, "nil pointer dereference", pos, exits)
+		x, okp := e.needNonNil(st, fr, x, pos, exits)
+		if !okp {
 			return nil, false
 		}
 		arr, ok := e.load(st, x).(ArrayV)
@@ -546,8 +550,8 @@ func (e *Engine) sliceOp(st *State, fr *Frame, x *ssa.Slice, exits *[]exit) (Val
 		}
 		return SliceV{Obj: v.Obj, Path: v.Path, Off: v.Off + l, Len: c.BVSub(hi, lo), Cap: int(max.C) - l}, true
 	case PtrV: // *array
-		if v.IsNil() {
-			e.panicExit(st, fr, "nil pointer dereference (slice of *array)", x.Pos(), exits)
+		v, okp := e.needNonNil(st, fr, v, x.Pos(), exits)
+		if !okp {
 			return nil, false
 		}
 		arr := e.load(st, v).(ArrayV)
